@@ -23,6 +23,13 @@ import (
 var c15ws *WireSession
 var c15serial int
 
+// No cross-talk between cases, by construction: the background dispatch of a line takes its snapshot
+// "some time after" the line arrived, possibly after the NEXT case has registered its handlers.
+// (a) the generator gives every case its own verb; (b) should a verb nevertheless come back within
+// one session (stored inputs, replays), the case gets a FRESH client, whose handler sets no dispatch
+// of an earlier line can reach; (c) every handler ignores a line whose Raw is not this case's line.
+var c15verbs = map[string]bool{}
+
 func init() {
 	props["C15"] = &Prop{
 		Setup:    func() { c15ws = NewWireSession(nil) },
@@ -139,6 +146,13 @@ func c15Exec(in Fields) Fields {
 	if in.S(6) == "1" {
 		defer runtime.GOMAXPROCS(runtime.GOMAXPROCS(1))
 	}
+	if lv := strings.ToLower(verb); c15verbs[lv] {
+		c15ws.Close()
+		c15ws = NewWireSession(nil)
+		c15verbs = map[string]bool{lv: true}
+	} else {
+		c15verbs[lv] = true
+	}
 	c := c15ws.Conn
 	total := nfg + nbg + 1
 	if mode != "" {
@@ -160,6 +174,9 @@ func c15Exec(in Fields) Fields {
 	mk := func(idx int, late bool) client.HandlerFunc {
 		var once sync.Once
 		return func(_ *client.Conn, l *client.Line) {
+			if l.Raw != line {
+				return // not this case's line
+			}
 			ran := false
 			once.Do(func() { ran = true })
 			if !ran {
@@ -297,7 +314,7 @@ func c15Gen(r *Rand, tier string, scale int, emit func(Fields)) {
 		case 1:
 			b.WriteString(":irc.server.example ")
 		}
-		verb := r.Pick(verbs)
+		verb := fmt.Sprintf("%s%d", r.Pick(verbs), i) // a verb of its own for every case of the run
 		b.WriteString(verb)
 		nargs := i % 16 // 0..15 in turn
 		trailing := nargs > 0 && r.Chance(60)
